@@ -1,7 +1,7 @@
 """Assembly of all contract modules, per-property metadata."""
-from . import base, iface, c_output, c_input, c_time, c_integration, c_schedule, c_connect, c_info, c_components, c_grid, c_mask, c_units
+from . import base, iface, c_output, c_input, c_time, c_integration, c_schedule, c_connect, c_info, c_components, c_grid, c_mask, c_units, c_regrid
 
-MODULES = [c_output, c_input, c_time, c_integration, c_schedule, c_connect, c_info, c_components, c_grid, c_mask, c_units]
+MODULES = [c_output, c_input, c_time, c_integration, c_schedule, c_connect, c_info, c_components, c_grid, c_mask, c_units, c_regrid]
 
 LEVEL = {}          # property -> evidence level (default "proof")
 EXPLAIN = {}        # property -> what the run covers
